@@ -18,6 +18,7 @@ EXPLANATION = (
     "'the name is an assigned name'.  R01.4: inside call parentheses the offset evaluator never falls through from the keyword branch to generic "
     "scope evaluation, and outside any call it does (the keyword test is textual and also holds for tuple targets).  R01.5: ChangeCollector applies edits sorted by offset over the original text with an advancing "
     "watermark and keeps the tail.  R01.6: a module rename appends '.py' exactly for files.  R01.7: name tables merged from several sources give the winner the language prescribes (last star import, first base class).  R01.8: an absolute module name is searched on the source folders and the python path before the importer's own folder.  R01.9 (=R15.7): target-name collectors never bind the object of an attribute/subscript target.  Alpha-equivalence of the rewritten program is a runtime fact and is not decided."
+    ' R01.11: `__init__` is answered as the function a call runs only when the called object is a class (an instance runs `__call__`).'
 )
 ASSUMPTIONS = ["scope classes are the subclasses of rope.base.pyscopes.Scope found in the working tree"]
 
